@@ -174,7 +174,7 @@ class GroupRun:
         if not os.path.isdir(self.target):
             if os.path.isdir(WARM):
                 subprocess.run(["cp", "-a", WARM, self.target], check=True)
-        cmd = ["cargo", "kani"] + KANI_FLAGS + [
+        cmd = ["cargo", "kani"] + KANI_FLAGS + (["--features", "kani_projection"] if self.kind == "p" else []) + [
             "--target-dir", self.target, "--output-format", "terse", "--output-into-files",
             "--harness-timeout", "%ds" % self.timeout_s, "-j", str(self.jobs), "--exact"] + self.extra
         for h in self.harnesses:
@@ -285,7 +285,7 @@ def concrete_playback(h, scratch, prop):
     target = os.path.join(scratch, "target-replay")
     if not os.path.isdir(target) and os.path.isdir(WARM):
         subprocess.run(["cp", "-a", WARM, target], check=True)
-    cmd = ["cargo", "kani"] + KANI_FLAGS + ["-Z", "concrete-playback", "--concrete-playback=print",
+    cmd = ["cargo", "kani"] + KANI_FLAGS + (["--features", "kani_projection"] if h.kind == "p" else []) + ["-Z", "concrete-playback", "--concrete-playback=print",
                                             "--target-dir", target, "--exact", "--harness", h.path]
     r = subprocess.run(cmd, cwd=ov, env=env_for_kani(), stdout=subprocess.PIPE, stderr=subprocess.STDOUT,
                        text=True, timeout=THOROUGH_TIMEOUT)
